@@ -2,7 +2,7 @@
 From stdpp Require Import gmap sets list.
 From Coq Require Import ZArith.
 From SV Require Import SM.IdMan SM.IdLife SM.IdLifeProofs SM.IdFixupHist SM.IdFixupHistProofs SM.IdWorld SM.IdWorldProofs
-  SM.IdNest SM.IdNestProofs SM.IdNode SM.IdNodeProofs SM.IdNodeMaps SM.IdNodeMapsProofs.
+  SM.IdNest SM.IdNestProofs SM.IdNode SM.IdNodeProofs SM.IdNodeMaps SM.IdNodeMapsProofs SM.IdCtor SM.IdCtorProofs.
 Open Scope Z_scope.
 
 Definition uniq_pos (l : list Z) : Prop := NoDup l ∧ ∀ i, i ∈ l → 0 < i.
@@ -23,4 +23,24 @@ Proof.
   split; [exact HE|]. split; [exact HS|]. split; [exact HF|].
   split; [exact (world_live_ids_nodup_pos hg m)|]. split; [exact (world_live_ids_nodup_pos hv m)|].
   split; [exact (node_maps_ids_nodup_pos ra rd hm m)|]. exact (fx_hist_inv fl fo).
+Qed.
+
+(** Round 5: ... and for every class whose constructor step list passes [ctor_ok], after every history of constructor calls that
+    complete or raise at any point where they can raise, and of destructor calls of complete and half-built objects. *)
+Definition ctors_ok (classes : list (list cstep * bool * bool)) : bool :=
+  forallb (λ c : list cstep * bool * bool, ctor_ok c.1.1 c.1.2 c.2) classes.
+Theorem all_kinds_unique_r5 (hn : list tev) (hg hv : list wev) (hm : list mev) (fl : list (Z * Z)) (fo : list fxop)
+    (ra rd : bool) (m : nat) (prog : list pstep) (classes : list (list cstep * bool * bool)) :
+  prog_ok prog = true → ctors_ok classes = true →
+  let wn := trun false false false true true true prog hn in
+  (uniq_pos (live_ids_in m (tE wn)) ∧ uniq_pos (live_ids_in m (tS wn)) ∧ uniq_pos (live_ids_in m (tF wn)) ∧
+   uniq_pos (live_ids_in m (wrun false true hg)) ∧ uniq_pos (live_ids_in m (wrun false true hv)) ∧
+   uniq_pos (nids (nents (mmap (mrun ra false rd true hm) m))) ∧
+   FxInv (fx_hist true true fl fo)) ∧
+  ∀ c hc, c ∈ classes → uniq_pos (klive (krun c.1.1 c.1.2 c.2 false hc)).
+Proof.
+  intros Hp Hc wn. split; [exact (all_kinds_unique hn hg hv hm fl fo ra rd m prog Hp)|].
+  intros c hc Hin. unfold ctors_ok in Hc. rewrite forallb_forall in Hc.
+  assert (Hok : ctor_ok c.1.1 c.1.2 c.2 = true) by (apply Hc; by apply elem_of_list_In).
+  destruct (failed_ctor_unique c.1.2 c.2 c.1.1 hc Hok) as (H1 & H2 & _). split; done.
 Qed.
